@@ -9,8 +9,12 @@ package oned
 //@ spec func absdev(c []int, p []int, u real, n int) real = n <= 0 ? 0.0 : absdev(c, p, u, n-1) + abs(real(c[n-1]) - real(p[n-1])*u)
 //@ spec func withinVar(c []int, p []int, u real, m real, n int) bool = forall y int :: 0 <= y && y < n ==> abs(real(c[y]) - real(p[y])*u) <= m
 
+// pmv(c, p, m): the variance PatternMatchVariance is specified to return (closed form over the first len(c) entries); opaque: only
+// PatternMatchVariance's own proof uses the definition, its callers reason about "the variance" as a value
+//@ opaque func pmv(c []int, p []int, m real) real = (sum(c, len(c)) < sum(p, len(c)) || !withinVar(c, p, real(sum(c, len(c)))/real(sum(p, len(c))), m*(real(sum(c, len(c)))/real(sum(p, len(c)))), len(c))) ? posInf() : absdev(c, p, real(sum(c, len(c)))/real(sum(p, len(c))), len(c))/real(sum(c, len(c)))
 //@ func PatternMatchVariance(counters []int, pattern []int, maxIndividualVariance float64) (r float64)
 //@   property C20
+//@   opt reveal=pmv
 //@   requires len(counters) >= 1 && len(pattern) >= len(counters) && len(counters) <= 1<<20
 //@   requires forall i int :: 0 <= i && i < len(counters) ==> 0 <= counters[i] && counters[i] < 1<<30
 //@   requires forall i int :: 0 <= i && i < len(counters) ==> 1 <= pattern[i] && pattern[i] < 1<<30
@@ -22,13 +26,15 @@ package oned
 //@   ensures T < P ==> isPosInf(r)
 //@   ensures T >= P && !withinVar(counters, pattern, u, maxIndividualVariance*u, n) ==> isPosInf(r)
 //@   ensures T >= P && withinVar(counters, pattern, u, maxIndividualVariance*u, n) ==> r == absdev(counters, pattern, u, n)/real(T)
+//@   ensures r == pmv(counters, pattern, maxIndividualVariance)
+//@   ensures r >= 0.0
 //@   modifies nothing
 //@   loop 0: invariant 0 <= i && i <= n && numCounters == n && total == sum(counters, i) && patternLength == sum(pattern, i)
 //@   loop 0: invariant 0 <= total && total <= i*(1<<30) && i <= patternLength && patternLength <= i*(1<<30)
 //@   loop 0: decreases n - i
 //@   loop 1: invariant 0 <= x && x <= n && numCounters == n && total == T && patternLength == P && P >= n
 //@   loop 1: invariant unitBarWidth == u && maxIndividualVariance == old(maxIndividualVariance)*u
-//@   loop 1: invariant totalVariance == absdev(counters, pattern, u, x)
+//@   loop 1: invariant totalVariance == absdev(counters, pattern, u, x) && totalVariance >= 0.0
 //@   loop 1: invariant withinVar(counters, pattern, u, maxIndividualVariance, x)
 //@   loop 1: decreases n - x
 
@@ -300,7 +306,7 @@ package oned
 //@   ensures e != nil ==> start >= row.size || chg(row, start, row.size) < len(counters) - 1
 //@   ensures e != nil ==> typeis(e, "gozxing.notFoundException")
 // on success every counter is positive except that nothing is said about their sum beyond the row: they add up to at most the pixels available
-//@   ensures e == nil ==> (forall k int :: 0 <= k && k < len(counters) ==> counters[k] >= 1)
+//@   ensures e == nil ==> (forall k int :: 0 <= k && k < len(counters) ==> counters[k] >= 1 && counters[k] <= row.size)
 //@   modifies counters[*]
 //@   loop 0: invariant -1 <= rangeindex && rangeindex < len(counters) && (forall k int :: 0 <= k && k <= rangeindex ==> counters[k] == 0)
 //@   loop 0: decreases len(counters) - rangeindex
@@ -308,6 +314,7 @@ package oned
 //@   loop 1: invariant i == start ==> counterPosition == 0 && isWhite == !gozxing.bit(row, start)
 //@   loop 1: invariant i > start ==> counterPosition == chg(row, start, i) && isWhite == !gozxing.bit(row, i - 1)
 //@   loop 1: invariant (forall k int :: 0 <= k && k < counterPosition ==> counters[k] >= 1) && (i > start ==> counters[counterPosition] >= 1) && (forall k int :: counterPosition < k && k < numCounters ==> counters[k] == 0) && (i == start ==> counters[0] == 0)
+//@   loop 1: invariant forall k int :: 0 <= k && k < numCounters ==> counters[k] <= i - start
 //@   loop 1: decreases end - i
 
 // ---------------------------------------------------------------- Codabar reader (C06): a character is recognised only when all seven of its
@@ -326,3 +333,60 @@ package oned
 //@   loop 2: decreases 7 - i
 //@   loop 3: invariant 0 <= i && i <= len(codabarReader_CHARACTER_ENCODINGS) && end == position + 7 && end < this.counterLength
 //@   loop 3: decreases len(codabarReader_CHARACTER_ENCODINGS) - i
+
+// ---------------------------------------------------------------- best-match digit decoders (C20)
+// ITF: the digit is that of the unique pattern with the strictly smallest variance below the average-variance limit; a tie for the minimum is refused
+//@ spec func vITF(counters []int, i int) real = pmv(counters, itfReader_PATTERNS[i], itfReader_MAX_INDIVIDUAL_VARIANCE)
+//@ func itfReader_decodeDigit(counters []int) (r int, e error)
+//@   property C20 C06
+//@   globals itfReader_PATTERNS
+//@   let LIM = itfReader_MAX_AVG_VARIANCE
+//@   requires len(counters) >= 1 && len(counters) <= 5 && (forall k int :: 0 <= k && k < len(counters) ==> 0 <= counters[k] && counters[k] < 1<<30)
+//@   ensures e == nil ==> exists i int :: 0 <= i && i < 20 && r == i % 10 && vITF(counters, i) < LIM && (forall j int :: 0 <= j && j < 20 && j != i ==> vITF(counters, j) > vITF(counters, i))
+//@   ensures e != nil ==> (forall i int :: 0 <= i && i < 20 ==> vITF(counters, i) >= LIM) || (exists k1 int, k2 int :: 0 <= k1 && k1 < k2 && k2 < 20 && vITF(counters, k1) == vITF(counters, k2) && (forall i int :: 0 <= i && i < 20 ==> vITF(counters, i) >= vITF(counters, k1)))
+//@   modifies nothing
+//@   loop 0: invariant 0 <= i && i <= max && max == 20 && bestVariance <= LIM && -1 <= bestMatch && bestMatch < i
+//@   loop 0: invariant forall k int :: 0 <= k && k < i ==> vITF(counters, k) >= bestVariance
+//@   loop 0: invariant bestMatch >= 0 ==> vITF(counters, bestMatch) == bestVariance && bestVariance < LIM && (forall k int :: 0 <= k && k < i && k != bestMatch ==> vITF(counters, k) > bestVariance)
+//@   loop 0: invariant bestMatch < 0 && bestVariance < LIM ==> exists k1 int, k2 int :: 0 <= k1 && k1 < k2 && k2 < i && vITF(counters, k1) == bestVariance && vITF(counters, k2) == bestVariance
+//@   loop 0: invariant bestMatch < 0 && !(bestVariance < LIM) ==> bestVariance == LIM
+//@   loop 0: decreases max - i
+
+// UPC/EAN and Code 128: the digit / code is the first pattern with the smallest variance, provided it is below the average-variance limit
+//@ spec func vPat(counters []int, patterns [][]int, i int, mi real) real = pmv(counters, patterns[i], mi)
+//@ func upceanReader_decodeDigit(row *gozxing.BitArray, counters []int, rowOffset int, patterns [][]int) (r int, e error)
+//@   property C20 C06
+//@   let LIM = UPCEANReader_MAX_AVG_VARIANCE
+//@   let MI = UPCEANReader_MAX_INDIVIDUAL_VARIANCE
+//@   requires row != nil && gozxing.wfBA(row) && 0 <= rowOffset && len(counters) >= 1 && len(counters) <= 1000 && row.size <= 10000000 && len(patterns) <= 1000
+//@   requires forall i int :: 0 <= i && i < len(patterns) ==> len(patterns[i]) >= len(counters) && arr(patterns[i]) != arr(counters) && (forall k int :: 0 <= k && k < len(counters) ==> 1 <= patterns[i][k] && patterns[i][k] < 1<<30)
+//@   ensures e == nil ==> 0 <= r && r < len(patterns) && vPat(counters, patterns, r, MI) < LIM && (forall j int :: 0 <= j && j < len(patterns) ==> vPat(counters, patterns, j, MI) >= vPat(counters, patterns, r, MI)) && (forall j int :: 0 <= j && j < r ==> vPat(counters, patterns, j, MI) > vPat(counters, patterns, r, MI))
+//@   ensures e != nil ==> rowOffset >= row.size || chg(row, rowOffset, row.size) < len(counters) - 1 || (forall j int :: 0 <= j && j < len(patterns) ==> vPat(counters, patterns, j, MI) >= LIM)
+//@   modifies counters[*]
+//@   loop 0: invariant 0 <= i && i <= max && max == len(patterns) && bestVariance <= LIM && -1 <= bestMatch && bestMatch < i
+//@   loop 0: invariant forall k int :: 0 <= k && k < len(counters) ==> counters[k] >= 1 && counters[k] <= row.size
+//@   loop 0: invariant forall q int :: 0 <= q && q < len(patterns) ==> len(patterns[q]) >= len(counters)
+//@   loop 0: invariant forall q int, k int :: 0 <= q && q < len(patterns) && 0 <= k && k < len(counters) ==> 1 <= patterns[q][k] && patterns[q][k] < 1<<30
+//@   loop 0: invariant forall k int :: 0 <= k && k < i ==> vPat(counters, patterns, k, MI) >= bestVariance
+//@   loop 0: invariant bestMatch >= 0 ==> vPat(counters, patterns, bestMatch, MI) == bestVariance && bestVariance < LIM && (forall k int :: 0 <= k && k < bestMatch ==> vPat(counters, patterns, k, MI) > bestVariance)
+//@   loop 0: invariant bestMatch < 0 ==> bestVariance == LIM
+//@   loop 0: decreases max - i
+
+//@ func code128DecodeCode(row *gozxing.BitArray, counters []int, rowOffset int) (r int, e error)
+//@   property C20 C06
+//@   globals code128CODE_PATTERNS
+//@   let LIM = code128MAX_AVG_VARIANCE
+//@   let MI = code128MAX_INDIVIDUAL_VARIANCE
+//@   let P = code128CODE_PATTERNS
+//@   requires row != nil && gozxing.wfBA(row) && 0 <= rowOffset && len(counters) >= 1 && len(counters) <= 6 && row.size <= 10000000 && !fresh(counters) && (forall q int :: 0 <= q && q < 107 ==> arr(code128CODE_PATTERNS[q]) != arr(counters))
+//@   ensures e == nil ==> 0 <= r && r < 107 && vPat(counters, P, r, MI) < LIM && (forall j int :: 0 <= j && j < 107 ==> vPat(counters, P, j, MI) >= vPat(counters, P, r, MI)) && (forall j int :: 0 <= j && j < r ==> vPat(counters, P, j, MI) > vPat(counters, P, r, MI))
+//@   ensures e != nil ==> rowOffset >= row.size || chg(row, rowOffset, row.size) < len(counters) - 1 || (forall j int :: 0 <= j && j < 107 ==> vPat(counters, P, j, MI) >= LIM)
+//@   modifies counters[*]
+//@   loop 0: invariant 0 <= d && d <= 107 && len(code128CODE_PATTERNS) == 107 && bestVariance <= LIM && -1 <= bestMatch && bestMatch < d
+//@   loop 0: invariant forall k int :: 0 <= k && k < len(counters) ==> counters[k] >= 1 && counters[k] <= row.size
+//@   loop 0: invariant forall q int :: 0 <= q && q < 107 ==> len(P[q]) >= 6
+//@   loop 0: invariant forall q int, k int :: 0 <= q && q < 107 && 0 <= k && k < 6 ==> 1 <= P[q][k] && P[q][k] <= 4
+//@   loop 0: invariant forall k int :: 0 <= k && k < d ==> vPat(counters, P, k, MI) >= bestVariance
+//@   loop 0: invariant bestMatch >= 0 ==> vPat(counters, P, bestMatch, MI) == bestVariance && bestVariance < LIM && (forall k int :: 0 <= k && k < bestMatch ==> vPat(counters, P, k, MI) > bestVariance)
+//@   loop 0: invariant bestMatch < 0 ==> bestVariance == LIM
+//@   loop 0: decreases 107 - d
